@@ -15,6 +15,7 @@ mod c09;
 mod c12;
 mod c13;
 mod c14;
+mod c15;
 mod c16;
 mod c17;
 mod c18;
@@ -78,7 +79,7 @@ fn main() {
         "c08" => c08::run(&args),
         "c08mal" => c08::run_mal(&args),
         "c10" => c10::run(&args), "c10e2e" => c10::run_e2e(&args),
-        "c09" => c09::run(&args), "c09e2e" => c09::run_e2e(&args),
+        "c09" => c09::run(&args), "c09e2e" => c09::run_e2e(&args), "c09wit" => c09::run_witness(&args),
         "c11" => c11::run("c11", &args), "c11x" => c11::run("c11x", &args), "c11fea" => c11::run_file(&args),
         "c16" => c16::run(&args),
         "c17" => c17::run(&args),
@@ -90,6 +91,7 @@ fn main() {
         "c03e2e" => c03::run("c03e2e", &args),
         "c04e2e" => c03::run("c04e2e", &args),
         "c14names" | "c14paths" | "c14emit" => c14::run(argv[0].as_str(), &args),
+        "c15graph" => c15::run_graph(&args), "c15mut" => c15::run_mut(&args), "c15child" => c15::run_child(&args),
         other => {
             eprintln!("unknown stream {other}");
             std::process::exit(2);
